@@ -15,6 +15,7 @@ let dispatch prop input observed =
   | "C07" -> Exec.run_c07 input observed
   | "C02" -> Exec.run_c02 input observed
   | "C12" -> C20.run_c12 input observed
+  | "C11" when (match input with S.L (S.A "coerce" :: _) -> true | _ -> false) -> Coerce.run "C04" input observed
   | "C01" | "C06" | "C08" | "C09" | "C10" | "C11" -> Exec.run prop input observed
   | p -> failwith ("modelrun: unknown property " ^ p)
 
